@@ -293,6 +293,13 @@ type entry struct {
 	isDel bool
 }
 
+type heldMsg struct {
+	ptr   *pb.Notification
+	canon string
+	clone *pb.Notification
+	step  int
+}
+
 type leafObs struct {
 	ptr *pb.Notification
 	sem string
@@ -310,9 +317,18 @@ type monitor struct {
 	prev     map[string]leafObs
 	feed     []entry
 	retained []entry
-	cbBad    *mismatch
-	st       stats
-	count    bool // only the primary counts workload statistics
+	// Every notification object the history has submitted so far and every
+	// notification object the feed has handed out for an update, each with its
+	// serialisation at that time: the cache may replace what a leaf holds, but
+	// it must not write into an object the caller or a feed consumer still holds.
+	nCalls       int
+	submitted    []heldMsg
+	submittedSet map[*pb.Notification]struct{}
+	fedObjs      []heldMsg
+	fedSet       map[*pb.Notification]struct{}
+	cbBad        *mismatch
+	st           stats
+	count        bool // only the primary counts workload statistics
 	// per-trial facts for the non-triviality rule
 	fedUpd, rejected, delEntries, suppressed int
 }
@@ -322,7 +338,8 @@ func newMonitor(name string, targets, pool []string, ed bool, st stats, count bo
 	if !ed {
 		opts = append(opts, cache.DisableEventDrivenEmulation())
 	}
-	m := &monitor{name: name, ed: ed, pool: pool, shadow: model.NewShadow(), prev: map[string]leafObs{}, st: st, count: count}
+	m := &monitor{name: name, ed: ed, pool: pool, shadow: model.NewShadow(), prev: map[string]leafObs{}, st: st, count: count,
+		submittedSet: map[*pb.Notification]struct{}{}, fedSet: map[*pb.Notification]struct{}{}}
 	m.c = cache.New(targets, opts...)
 	m.c.SetClient(m.callback)
 	return m
@@ -345,6 +362,12 @@ func (m *monitor) callback(l *ctree.Leaf) {
 	e := entry{leaf: l, n: proto.Clone(v).(*pb.Notification), canon: canon(v)}
 	e.isDel = len(v.GetUpdate()) == 0
 	m.feed = append(m.feed, e)
+	if !e.isDel {
+		if _, seen := m.fedSet[v]; !seen {
+			m.fedSet[v] = struct{}{}
+			m.fedObjs = append(m.fedObjs, heldMsg{ptr: v, canon: e.canon, clone: e.n, step: m.nCalls})
+		}
+	}
 }
 
 // guard runs f and turns a panic into a mismatch.
@@ -469,6 +492,27 @@ func (m *monitor) compareShadow(content map[string]leafObs) *mismatch {
 			return &mismatch{"replay:timestamp", fmt.Sprintf("leaf %s: the cache holds timestamp %d, replaying the feed yields %d (event-driven emulation %v: the cache may be newer than the feed only with emulation on and an equal value, never older)", showKey(k), c.ts, s.GetTimestamp(), m.ed)}
 		}
 	}
+	return nil
+}
+
+// checkHeld re-compares, at a quiescent point, every notification object an
+// earlier call submitted (second half of clause 5) and every notification
+// object the feed handed out for an update (second half of clause 6) with its
+// serialisation at that time. A leaf may be given a new object; an object
+// that was handed in or out must not be written to afterwards.
+func (m *monitor) checkHeld() *mismatch {
+	for _, h := range m.submitted {
+		if canon(h.ptr) != h.canon {
+			return &mismatch{"earlier-caller-message-modified", fmt.Sprintf("the notification submitted at call %d was %q when that call returned and reads %q now (call %d): the caller still holds that object", h.step, showNotif(h.clone), showNotif(h.ptr), m.nCalls)}
+		}
+	}
+	for _, h := range m.fedObjs {
+		if canon(h.ptr) != h.canon {
+			return &mismatch{"fed-notification-mutated-later", fmt.Sprintf("the notification object handed to the callback during call %d read %q then and reads %q now (call %d): it was modified in place after it had been handed out", h.step, showNotif(h.clone), showNotif(h.ptr), m.nCalls)}
+		}
+	}
+	m.inc("oracle_earlier_submitted_messages_rechecked", len(m.submitted))
+	m.inc("oracle_fed_update_objects_rechecked", len(m.fedObjs))
 	return nil
 }
 
@@ -618,6 +662,7 @@ func (m *monitor) notif(n *pb.Notification) (res callResult, mm *mismatch) {
 	target := n.GetPrefix().GetTarget()
 	suppBefore, haveBefore := m.suppressedCounter(target)
 	m.feed, m.cbBad = nil, nil
+	m.nCalls++
 	var err error
 	if g := guard("GnmiUpdate", func() { err = m.c.GnmiUpdate(n) }); g != nil {
 		return res, g
@@ -640,6 +685,15 @@ func (m *monitor) notif(n *pb.Notification) (res callResult, mm *mismatch) {
 		return res, &mismatch{"caller-message-modified", fmt.Sprintf("the notification passed to GnmiUpdate was %q before the call and is %q after it returned", showNotif(pre), showNotif(n))}
 	}
 	m.inc("oracle_caller_message_compared", 1)
+	// ... and neither are the messages of earlier calls, nor the objects the
+	// feed handed out earlier.
+	if mm := m.checkHeld(); mm != nil {
+		return res, mm
+	}
+	if _, seen := m.submittedSet[n]; !seen {
+		m.submittedSet[n] = struct{}{}
+		m.submitted = append(m.submitted, heldMsg{ptr: n, canon: canon(n), clone: pre, step: m.nCalls})
+	}
 
 	nUpd, nDel := len(pre.GetUpdate()), len(pre.GetDelete())
 	fedUpd, fedDel := 0, 0
@@ -796,6 +850,7 @@ func (m *monitor) notif(n *pb.Notification) (res callResult, mm *mismatch) {
 // lifecycle runs Reset / Remove / Add and applies clauses (1) and (6).
 func (m *monitor) lifecycle(kind, target string) (res callResult, mm *mismatch) {
 	m.feed, m.cbBad = nil, nil
+	m.nCalls++
 	if g := guard(kind, func() {
 		switch kind {
 		case "reset":
@@ -818,6 +873,9 @@ func (m *monitor) lifecycle(kind, target string) (res callResult, mm *mismatch) 
 		return res, omm
 	}
 	res.class = m.classify(nil, content)
+	if mm := m.checkHeld(); mm != nil {
+		return res, mm
+	}
 	for _, e := range m.feed {
 		if e.isDel {
 			m.inc("feed_"+kind+"_delete_entries", 1)
